@@ -123,11 +123,14 @@ def check_convolution(rep, proj):
     eps = S.num_norm(ev0.module_global(mod, "eps_integration_border"))
     eps_abs = S.num_norm(ev0.module_global(mod, "eps_integration_abs"))
     rep.check(isinstance(eps, Fraction) and 0 < eps < Fraction(1, 1000), "C01.domain", conv.site, f"{CONV}::eps_integration_border", f"= {float(eps):g}", f"= {eps}")
-    x = Fraction(1, 4)
-    borders = [Fraction(1, 8), Fraction(1, 2), Fraction(1)]
     n = 0
-    for has_reg, has_sing, has_loc, log_mode in itertools.product([False, True], repeat=4):
-        label = f"reg={int(has_reg)},sing={int(has_sing)},loc={int(has_loc)},{'log' if log_mode else 'lin'}"
+    # geometries: x inside the support of the basis function; x exactly at its lower end (the function is 1 there for the first
+    # polynomial: the plus-distribution subtraction lives on [x, x/xmax]); x strictly below the support (f(x) = 0)
+    GEOMETRIES = [("inside", Fraction(1, 4), [Fraction(1, 8), Fraction(1, 2), Fraction(1)]),
+                  ("lower-end", Fraction(1, 8), [Fraction(1, 8), Fraction(1, 4), Fraction(1, 2)]),
+                  ("below", Fraction(1, 16), [Fraction(1, 8), Fraction(1, 4), Fraction(1, 2)])]
+    for (geo, x, borders), (has_reg, has_sing, has_loc, log_mode) in itertools.product(GEOMETRIES, itertools.product([False, True], repeat=4)):
+        label = f"reg={int(has_reg)},sing={int(has_sing)},loc={int(has_loc)},{'log' if log_mode else 'lin'}" + ("" if geo == "inside" else f",x {geo}")
         construct = f"{conv.fq}[{label}]"
         p = Probe(proj, has_reg, has_sing, has_loc, log_mode, x, borders)
         try:
@@ -163,8 +166,13 @@ def check_convolution(rep, proj):
                 lo = x * (1 + eps)
                 zmax = min(max(x / b for b in borders), 1)
                 hi = zmax * (1 - eps)
-                if isinstance(c["a"], A.Rat) or c["a"] != lo:
-                    problems.append(f"lower limit {A.canon(c['a'])[:40]} != x (1+eps)")
+                if geo == "below":
+                    # f(x) = 0 and f(x/z) = 0 for z < x/xmax: starting anywhere in [x, x/xmax] is the same integral
+                    lo_max = min(x / b for b in borders) * (1 + eps)
+                    if isinstance(c["a"], A.Rat) or not (lo <= c["a"] <= lo_max):
+                        problems.append(f"lower limit {A.canon(c['a'])[:40]} outside [x, x/xmax] (1+eps)")
+                elif isinstance(c["a"], A.Rat) or c["a"] != lo:
+                    problems.append(f"lower limit {A.canon(c['a'])[:40]} != x (1+eps)" + (": the subtraction term -f(x) sing(z) on [x, x/xmax] is lost" if geo == "lower-end" else ""))
                 if isinstance(c["b"], A.Rat) or c["b"] != hi:
                     problems.append(f"upper limit {A.canon(c['b'])[:40]} != min(max(x/borders), 1) (1-eps)")
                 pts = c["points"]
@@ -189,7 +197,7 @@ def check_convolution(rep, proj):
                 problems.append("returned value != integral + loc(x; args_loc) f(x): " + A.fmt_diffs(A.difference(val, A.to_rat(exp_val), tol=Fraction(0)), 2))
         rule = "C01.integrand"
         rep.check(not problems, rule, conv.site, construct, "integrand, limits, breakpoints, tolerance and local term as derived", "; ".join(problems[:3]), key=label)
-    rep.floor("convolution probes folded", n, 14)
+    rep.floor("convolution probes folded", n, 44)
     # empty domains
     for xval, what in ((1, "x = 1"), (1 - eps, "x = 1 - eps")):
         p = Probe(proj, True, True, True, False, xval, borders)
